@@ -34,6 +34,13 @@ def searchR (C : Cfg) (src : Array UInt8) (mfl1 : Nat) : Nat → Nat → Nat →
     else if eq4 src (mi - C.s) fip then some (fip, mi - C.s, tbl')
     else searchR C src mfl1 fuel (fip + step) (nb >>> LZ4V.Gen.LZ4_skipTrigger) (nb + 1) tbl'
 
+/-- the table after a search that found nothing (`goto _last_literals`): every position it looked at was inserted; the table outlives the call -/
+def searchTblR (C : Cfg) (mfl1 : Nat) : Nat → Nat → Nat → Nat → Array Nat → Array Nat
+  | 0, _, _, _, tbl => tbl
+  | fuel+1, fip, step, nb, tbl =>
+    if fip + step > mfl1 then tbl else
+    searchTblR C mfl1 fuel (fip + step) (nb >>> LZ4V.Gen.LZ4_skipTrigger) (nb + 1) (tbl.setIfInBounds (C.P.hash fip) (store C.P.byU16 (C.s + fip)))
+
 def emitMatchR (C : Cfg) (src : Array UInt8) (st : St) (ip m op litStart ll : Nat) : Res :=
   let n := src.size
   let mfl1 := n - LZ4V.Gen.MFLIMIT + 1
@@ -62,7 +69,7 @@ def stepR (C : Cfg) (src : Array UInt8) (st : St) : Res :=
   | some m => emitMatchR C src st st.ip m (st.op + 1) st.ip 0
   | none =>
     match searchR C src mfl1 (n + 1) st.ip 1 (C.P.accel <<< LZ4V.Gen.LZ4_skipTrigger) st.tbl with
-    | none => .last st
+    | none => .last { st with tbl := searchTblR C mfl1 (n + 1) st.ip 1 (C.P.accel <<< LZ4V.Gen.LZ4_skipTrigger) st.tbl }
     | some (ip, m, tbl) =>
       let c := catchUp src st.anchor n ip m
       let ll := c.1 - st.anchor
